@@ -33,6 +33,7 @@ C['C01']=dict(mutants=[
  m('reorder-cases',EDGE,'\tcase Edge_amends:\n\t\treturn "AMENDS"\n\tcase Edge_ancestor:\n\t\treturn "ANCESTOR_OF"\n','\tcase Edge_ancestor:\n\t\treturn "ANCESTOR_OF"\n\tcase Edge_amends:\n\t\treturn "AMENDS"\n'),
 ])
 C['C02']=dict(mutants=[
+ m('unknown-phase-typed',UCDX,'\t\treturn sbom.DocumentType_ANALYZED.Enum()\n\tdefault:\n\t\treturn nil','\t\treturn sbom.DocumentType_ANALYZED.Enum()\n\tdefault:\n\t\treturn sbom.DocumentType_OTHER.Enum()','table-inverse'),
  m('extref-writer-wrong',SCDX,'\tcase sbom.ExternalReference_VCS:\n\t\treturn cdx.ERTypeVCS','\tcase sbom.ExternalReference_VCS:\n\t\treturn cdx.ERTypeWebsite','table-inverse'),
  m('hash-sibling-diverges',FUNCS,'\tcase cdx.HashAlgoSHA1:\n\t\treturn HashAlgorithm_SHA1','\tcase cdx.HashAlgoSHA1:\n\t\treturn HashAlgorithm_SHA256',''),
  m('auto-flag-literal',SCDX,'strings.Contains(flags[0], "-auto")','strings.Contains(flags[0], "-automatic")','constant-agreement'),
@@ -98,6 +99,7 @@ C['C07']=dict(mutants=[
  m('explicit-nil-check',SCDX,'\tfor _, n := range bom.GetNodeList().GetNodes() {\n\t\tcomp := s.nodeToComponent(n)','\tfor _, n := range bom.GetNodeList().GetNodes() {\n\t\tif n == nil {\n\t\t\tcontinue\n\t\t}\n\t\tcomp := s.nodeToComponent(n)'),
 ])
 C['C08']=dict(mutants=[
+ m('addnode-filters',NL,'func (nl *NodeList) AddNode(n *Node) {\n\tnl.Nodes = append(nl.Nodes, n)','func (nl *NodeList) AddNode(n *Node) {\n\tif n == nil || n.Id == "" {\n\t\treturn\n\t}\n\tnl.Nodes = append(nl.Nodes, n)','loop-totality'),
  m('union-skips-clean',NL,'\tret.cleanEdges()\n\n\t// Copy all root nodes from nl2','\t// Copy all root nodes from nl2','passes-normaliser'),
  m('clean-target-unfiltered',NL,'\t\t\tif _, ok := nodeIndex[s]; !ok {\n\t\t\t\tcontinue\n\t\t\t}\n','','normaliser-filters'),
  m('remove-keeps-roots',NL,'\tnl.RootElements = newRootElements\n','','removal-updates-roots'),
@@ -141,6 +143,7 @@ C['C12']=dict(mutants=[
  m('clone-via-append',NODE,'\t\tFileTypes:          slices.Clone(n.FileTypes),','\t\tFileTypes:          append([]string(nil), n.FileTypes...),'),
 ])
 C['C13']=dict(mutants=[
+ m('tag-used-twice',EXT,'\t\tret += fmt.Sprintf("(a)%s", e.Authority)','\t\tret += fmt.Sprintf("(c)%s", e.Authority)','distinct-field-tags'),
  m('comparator-not-an-order',NODE,'\tsort.Strings(keys)\n\tret := \"\"\n\tfor _, algo := range keys {','\tsort.Slice(keys, func(i, j int) bool {\n\t\treturn len(keys[i]) < len(keys[j]) || keys[i] < keys[j]\n\t})\n\tret := \"\"\n\tfor _, algo := range keys {','comparator-is-an-order'),
  m('extref-hash-by-position',EXT,'\t\tfor _, algo := range algos {\n\t\t\thashes = append(hashes, fmt.Sprintf("%d:%s", algo, e.Hashes[int32(algo)]))','\t\tfor i, algo := range algos {\n\t\t\thashes = append(hashes, fmt.Sprintf("%d:%s", algo, e.Hashes[int32(i)]))','schema-map-key'),
  m('drop-sort',NODE,'\tsort.Strings(pairs)\n\treturn strings.Join(pairs, ":")','\treturn strings.Join(pairs, ":")','sorted-before-ordered-sink'),
@@ -155,6 +158,7 @@ C['C13']=dict(mutants=[
  m('slices-sort',NODE,'\tsort.Strings(pairs)\n\treturn strings.Join(pairs, ":")','\tslices.Sort(pairs)\n\treturn strings.Join(pairs, ":")'),
 ])
 C['C14']=dict(mutants=[
+ m('diff-trusts-equal',DIFF,'func (n *Node) Diff(n2 *Node) *NodeDiff {\n\tnd := NodeDiff{','func (n *Node) Diff(n2 *Node) *NodeDiff {\n\tif n.Equal(n2) {\n\t\treturn nil\n\t}\n\tnd := NodeDiff{','diff-result'),
  m('removed-filtered-in-place',DIFF,'func diffSlice[T comparable](arr1, arr2 []T) (added, removed []T, count int) {\n\tadded = []T{}\n\tremoved = []T{}\n','func diffSlice[T comparable](arr1, arr2 []T) (added, removed []T, count int) {\n\tadded = []T{}\n\tremoved = arr1[:0]\n','diff-operands-unchanged'),
  m('extref-hash-by-position',EXT,'\t\tfor _, algo := range algos {\n\t\t\thashes = append(hashes, fmt.Sprintf("%d:%s", algo, e.Hashes[int32(algo)]))','\t\tfor i, algo := range algos {\n\t\t\thashes = append(hashes, fmt.Sprintf("%d:%s", algo, e.Hashes[int32(i)]))','schema-map-key'),
  m('stanza-wrong-dest',DIFF,'\tnd.Added.UrlHome = a\n','\tnd.Added.UrlDownload = a\n','diff-stanza'),
@@ -191,6 +195,7 @@ C['C17']=dict(mutants=[
  m('shared-default-published',WR,'\t\tOptions: newDefaultOptions(),','\t\tOptions: defaultOptions,','published-default'),
 ],benign=[])
 C['C18']=dict(mutants=[
+ m('fallbacks-merged',WR,'\tso := o.SerializeOptions\n\tif so == nil {\n\t\tso = defaultOptions.SerializeOptions\n\t}','\tso := o.SerializeOptions\n\tif so == nil || o.RenderOptions == nil {\n\t\tso = defaultOptions.SerializeOptions\n\t}','per-call-reads-argument'),
  m('format-options-merged-into-callers-map',WOPT,'\to.formatOptions[keyVal] = opts\n','\tif add, ok := opts.(map[string]interface{}); ok {\n\t\tif cur, ok := o.formatOptions[keyVal].(map[string]interface{}); ok && cur != nil {\n\t\t\tfor k, v := range add {\n\t\t\t\tcur[k] = v\n\t\t\t}\n\t\t\treturn\n\t\t}\n\t}\n\to.formatOptions[keyVal] = opts\n','option-writes-own-storage'),
  m('per-call-arg-written',WR,'\tformat := o.Format\n\tif o.Format == "" {\n\t\tformat = w.Options.Format\n\t}','\tif o.Format == "" {\n\t\to.Format = w.Options.Format\n\t}\n\tformat := o.Format','per-call-no-argument-write'),
  m('option-writes-global',WOPT,'\t\tw.Options.Format = f\n','\t\tw.Options.Format = f\n\t\tdefaultOptions.Format = f\n','option-writes-instance-only'),
@@ -199,6 +204,7 @@ C['C18']=dict(mutants=[
  m('receiver-format-options',RD,'o.GetFormatOptions(unserializer),','r.Options.GetFormatOptions(unserializer),','per-call-reads-argument'),
 ],benign=[])
 C['C19']=dict(mutants=[
+ m('refused-rename-removes-entry',FS,'\tif err := os.Rename(tmpPath, finalPath); err != nil {\n\t\tos.Remove(tmpPath) //nolint:errcheck,gosec // best effort cleanup','\tif err := os.Rename(tmpPath, finalPath); err != nil {\n\t\tos.Remove(finalPath) //nolint:errcheck,gosec // best effort cleanup','entry-never-removed'),
  m('decode-error-shadowed',FS,'\tif err := proto.Unmarshal(data, bom); err != nil {\n\t\treturn nil, fmt.Errorf("unmarshaling protobom data: %w", err)\n\t}','\tif err := proto.Unmarshal(data, bom); err != nil {\n\t\terr = fmt.Errorf("unmarshaling protobom data: %w", err)\n\t}','retrieve-validates'),
  m('wrapper-swallows-error',WR,'\tif err := w.Storage.Store(bom, o.StoreOptions); err != nil {\n\t\treturn fmt.Errorf("calling backend store: %w", err)\n\t}','\tif err := w.Storage.Store(bom, o.StoreOptions); err != nil {\n\t\treturn nil\n\t}','wrapper-propagates-error'),
  m('store-shortcut',FS,'\t// Write the data to a temporary file in the same directory and rename it\n','\tif st, err := os.Stat(finalPath); err == nil && st.Size() == int64(len(out)) {\n\t\treturn nil\n\t}\n\t// Write the data to a temporary file in the same directory and rename it\n','store-success-publishes'),
@@ -210,6 +216,7 @@ C['C19']=dict(mutants=[
  m('identity-check-dropped',FS,'\tif bom.GetMetadata().GetId() != id {\n\t\treturn nil, fmt.Errorf("stored entry does not contain document %q", id)\n\t}\n','','retrieve-validates'),
 ],benign=[])
 C['C20']=dict(mutants=[
+ m('entry-linked-before-write',FS,'\ttmpPath := tmp.Name()\n','\ttmpPath := tmp.Name()\n\tos.Link(tmpPath, finalPath) //nolint:errcheck,gosec\n','replace-protocol'),
  m('write-error-ignored',FS,'\tif _, err := tmp.Write(out); err != nil {\n\t\ttmp.Close()        //nolint:errcheck,gosec // already failing\n\t\tos.Remove(tmpPath) //nolint:errcheck,gosec // best effort cleanup\n\t\treturn fmt.Errorf("writing data to disk: %w", err)\n\t}\n','\ttmp.Write(out) //nolint:errcheck\n','replace-protocol'),
  m('write-in-place',FS,'\tif err := os.Rename(tmpPath, finalPath); err != nil {','\tif err := os.WriteFile(finalPath, out, 0o644); err != nil {','no-inplace-write'),
  m('rename-before-close',FS,'\tif err := tmp.Close(); err != nil {\n\t\tos.Remove(tmpPath) //nolint:errcheck,gosec // best effort cleanup\n\t\treturn fmt.Errorf("writing data to disk: %w", err)\n\t}\n','\tdefer tmp.Close()\n','replace-protocol'),
